@@ -55,6 +55,17 @@ def profile_dmm(tier):
                                         chan_kw={"bandwidth": [None, 8], "eom": False}))
 
 
+def profile_retarget(tier):
+    """Local channels with frequent retargets: the retarget times are what matters."""
+    p = profile(tier)
+    return dict(p, weights={"declare": 6, "declare_more": 2, "add": 10, "align": 1, "delay": 2,
+                            "phase_shift": 1, "target": 9, "eom": 0, "add_dmm": 0, "detmap": 0,
+                            "slm": 0, "measure": 0},
+                device=gen.device_specs(n_channels=(1, 2), allow_builtin=False, allow_dmm=False,
+                                        chan_kw={"addr": "Local", "bandwidth": [None, 8], "eom": False}),
+                register=gen.register_specs(n=(2, 4), layout=False))
+
+
 @st.composite
 def mutate_channel(draw, c):
     c = copy.deepcopy(c)
@@ -147,7 +158,15 @@ def cases(draw, tier, prof=profile):
     B = copy.deepcopy(A)
     B["name"] = "GenDevB"
     dmm_focus = prof is profile_dmm and draw(st.booleans())
-    if not dmm_focus:
+    retarget_focus = prof is profile_retarget
+    if retarget_focus:
+        # only the retarget times change
+        for c in B["channels"]:
+            if draw(st.booleans()):
+                c["min_retarget_interval"] = draw(st.sampled_from([0, 50, 100, 220]))
+            if draw(st.integers(0, 3)) == 0:
+                c["fixed_retarget_t"] = draw(st.sampled_from([0, 10, 100]))
+    elif not dmm_focus:
         B["channels"] = [draw(mutate_channel(c)) for c in A["channels"]]
     if B.get("dmms") and (prof is profile_dmm or draw(st.booleans())):
         if dmm_focus and draw(st.booleans()):
@@ -158,26 +177,27 @@ def cases(draw, tier, prof=profile):
                     d["max_duration"] = max(d["max_duration"], d["min_duration"])
         else:
             B["dmms"] = [draw(mutate_dmm(d)) for d in B["dmms"]]
-    if draw(st.booleans()):
-        B["channels"] = [B["channels"][i] for i in draw(st.permutations(list(range(len(B["channels"])))))]
-    if draw(st.integers(0, 3)) == 0:
-        B["channel_ids"] = [f"new{i}" for i in range(len(B["channels"]))]
-    else:
-        B.pop("channel_ids", None)
-    if draw(st.integers(0, 4)) == 0 and len(B["channels"]) > 1:
-        B["channels"] = B["channels"][:-1]
-        if "channel_ids" in B:
-            B["channel_ids"] = B["channel_ids"][:-1]
-    if draw(st.integers(0, 3)) == 0:
-        B["channels"] = B["channels"] + [draw(gen.channel_specs(physical=B["type"] == "physical"))]
-        if "channel_ids" in B:
-            B["channel_ids"] = B["channel_ids"] + ["extra"]
-    if B["type"] == "virtual" and draw(st.booleans()):
-        B["reusable_channels"] = draw(st.booleans())
-    if draw(st.integers(0, 3)) == 0:
-        B["rydberg_level"] = draw(st.sampled_from([50, 70, 100]))
-    if draw(st.integers(0, 3)) == 0:
-        B["max_sequence_duration"] = draw(st.sampled_from([600, 6000, 10**6]))
+    if not (retarget_focus or dmm_focus) or draw(st.integers(0, 3)) == 0:
+        if draw(st.booleans()):
+            B["channels"] = [B["channels"][i] for i in draw(st.permutations(list(range(len(B["channels"])))))]
+        if draw(st.integers(0, 3)) == 0:
+            B["channel_ids"] = [f"new{i}" for i in range(len(B["channels"]))]
+        else:
+            B.pop("channel_ids", None)
+        if draw(st.integers(0, 4)) == 0 and len(B["channels"]) > 1:
+            B["channels"] = B["channels"][:-1]
+            if "channel_ids" in B:
+                B["channel_ids"] = B["channel_ids"][:-1]
+        if draw(st.integers(0, 3)) == 0:
+            B["channels"] = B["channels"] + [draw(gen.channel_specs(physical=B["type"] == "physical"))]
+            if "channel_ids" in B:
+                B["channel_ids"] = B["channel_ids"] + ["extra"]
+        if B["type"] == "virtual" and draw(st.booleans()):
+            B["reusable_channels"] = draw(st.booleans())
+        if draw(st.integers(0, 3)) == 0:
+            B["rydberg_level"] = draw(st.sampled_from([50, 70, 100]))
+        if draw(st.integers(0, 3)) == 0:
+            B["max_sequence_duration"] = draw(st.sampled_from([600, 6000, 10**6]))
     if B["type"] == "physical":
         for c in B["channels"]:
             c.setdefault("max_duration", 2**26)
@@ -189,8 +209,13 @@ def cases(draw, tier, prof=profile):
             c["max_abs_detuning"] = c.get("max_abs_detuning") or TWO_PI * 20
     moved = [[x + draw(st.sampled_from([0.0, 0.0, 1.0, -2.0])) * (i + 1) for x in p]
              for i, p in enumerate(base["register"]["coords"])]
-    strict = draw(st.booleans()) or (dmm_focus and draw(st.booleans()))
-    return dict(base=base, devB=B, strict=strict, moved=moved)
+    strict = draw(st.booleans()) or ((dmm_focus or retarget_focus) and draw(st.booleans()))
+    out = dict(base=base, devB=B, strict=strict, moved=moved)
+    if not base["register"].get("mappable") and draw(st.integers(0, 1 if retarget_focus else 2)) == 0:
+        from pv import gen_param
+
+        out["param"] = draw(gen_param.parametrized(base, rate=draw(st.sampled_from([10, 30])), custom_var=False))
+    return out
 
 
 def timing_differs(A, B) -> bool:
@@ -289,6 +314,44 @@ def check(case, ctx: Ctx):
                 if isinstance(e, Violation):
                     ctx.fail(C, f"non_strict:{e.clause}:{e.disc}", e.msg)
                 raise
+    # ---- strict switch of the parametrized variant: built with the same values, the
+    # switched template must give the identical timeline and samples (or the switch raises)
+    pp = case.get("param")
+    if pp and strict:
+        CP = "C18.switch_device"
+        tit, status = ctx.must(lambda: c08.run_template(pp, ctx, CP), CP, "template construction")
+        T = tit.seq
+        if T.is_parametrized() and all(st_ == "ok" for st_ in status):
+            ctx.label("parametrized_strict")
+            try:
+                Tn = T.switch_device(devB, strict=True)
+            except Exception as e:  # noqa: BLE001 - raising is always allowed
+                ctx.label("parametrized_raised:" + type(e).__name__)
+                Tn = None
+            if Tn is not None:
+                for j, vals in enumerate(pp["assignments"]):
+                    outs = []
+                    for s_ in (T, Tn):
+                        try:
+                            outs.append(s_.build(**vals))
+                        except Exception as e:  # noqa: BLE001
+                            outs.append(e)
+                    if isinstance(outs[0], Exception):
+                        continue  # the original does not build with these values
+                    if isinstance(outs[1], Exception):
+                        # refused at build time on the new device (e.g. its shorter maximum
+                        # duration): a late refusal, not a different sequence
+                        ctx.label("parametrized_switched_refused_at_build")
+                        continue
+                    ta, tb = snap.timeline(outs[0]), snap.timeline(outs[1])
+                    ren = dict(zip([n for n in outs[0].declared_channels if n.startswith("dmm_")],
+                                   [n for n in outs[1].declared_channels if n.startswith("dmm_")]))
+                    ta = {ren.get(k, k): v for k, v in ta.items()}
+                    d = snap.diff(ta, tb)
+                    if d and not (outs[0]._slm_mask_dmm and "dmm" in d.split("/")[1]):
+                        ctx.fail(CP, "strict:parametrized:timeline_changed",
+                                 f"strict switch of a parametrized sequence, built with assignment {j}: {d}; "
+                                 f"A={_chdiff(base['device'], case['devB'])}")
     # ---- switch_register: same ids, moved atoms
     if seq.is_register_mappable():
         return
@@ -330,6 +393,9 @@ CLAUSES = [
     Clause("switch", check, gen=lambda t: cases(t),
            budget={"quick": (16, 250), "thorough": (16, 6000)},
            doc="switch_device strict/non-strict and switch_register"),
+    Clause("switch_retarget", check, gen=lambda t: cases(t, profile_retarget),
+           budget={"quick": (8, 150), "thorough": (16, 3000)},
+           doc="local channels with frequent retargets x devices differing only in retarget times (half parametrized)"),
     Clause("switch_dmm", check, gen=lambda t: cases(t, profile_dmm),
            budget={"quick": (16, 150), "thorough": (16, 3000)},
            doc="DMM-heavy programs (detuning maps, aligns on DMM channels) x DMM parameter changes"),
